@@ -353,6 +353,7 @@ class EvalFunc:
         self.nonlocal_names = set()
         self.local_names = None
         self.local_sym_table = {}
+        self.closure_names = set()
         self.doc_string = ast.get_docstring(func_def)
         self.num_posonly_arg = len(self.func_def.args.posonlyargs)
         self.num_posn_arg = self.num_posonly_arg + len(self.func_def.args.args) - len(self.defaults)
@@ -710,6 +711,7 @@ class EvalFunc:
             for sym_table in reversed(ast_ctx.sym_table_stack[sym_table_idx:] + [ast_ctx.sym_table]):
                 if var_name in sym_table and isinstance(sym_table[var_name], EvalLocalVar):
                     self.local_sym_table[var_name] = sym_table[var_name]
+                    self.closure_names.add(var_name)
                     break
             else:
                 if var_name in nonlocal_names:
@@ -794,7 +796,7 @@ class EvalFunc:
         for name, value in self.local_sym_table.items():
             if name in sym_table:
                 sym_table[name] = EvalLocalVar(name, value=sym_table[name])
-            elif value.is_defined():
+            elif name in self.closure_names:
                 sym_table[name] = value
             else:
                 sym_table[name] = EvalLocalVar(name)
